@@ -16,7 +16,7 @@ for f in glob.glob(src + "/*"):
     shutil.copy(f, dst)
 meta = {
     "property": pid,
-    "origin": "independent sub-agent (saw the property text, the four earlier ideas to avoid, and a scratch worktree; asked for changes reached through less common usage, n-th calls, interior-range arithmetic or the interplay of two features), round " + rnd,
+    "origin": "independent sub-agent (saw the property text, the earlier ideas to avoid, and a scratch worktree; asked for something the checks had not seen yet), round " + rnd,
     "change": parts[0], "needs_to_manifest": parts[1],
     "confirmed_by_me": "fresh scratch worktree of /repo HEAD: patch applies, go build ./... (+ internal/app, js/wasm) ok, repository tests pass with the change, the demonstration fails with the change and passes without it",
     "ran": "checks as committed at that moment and current checks",
